@@ -156,3 +156,37 @@ theorem with_prob_one (e : OpExpr) (p : Pop) (st : St) (out : Pop) (st' : St)
   exact h3
 
 end Pg.C14
+
+namespace Pg.C14
+
+/-- `x - y` on identities: the result is `x` without exactly the objects `y` returned (whatever their
+DNA values), so `|x - y| = |x| - |{d ∈ x : d is one of y's objects}|`. -/
+theorem difference_by_identity (a b : OpExpr) (p : Pop) (st : St) (out : Pop) (st' : St)
+    (h : eval (.diff a b) p st = .ok (out, st')) :
+    ∃ x y s1, eval b p st = .ok (y, s1) ∧ eval a p s1 = .ok (x, st') ∧
+      out = x.filter (fun d => !hasUid d.uid y) ∧
+      out.length + (x.filter (fun d => hasUid d.uid y)).length = x.length ∧
+      ∀ d ∈ x, (d ∈ out ↔ hasUid d.uid y = false) := by
+  simp only [eval] at h
+  rw [bind_ok] at h
+  obtain ⟨y, s1, h1, h2⟩ := h
+  rw [bind_ok] at h2
+  obtain ⟨x, s2, h3, h4⟩ := h2
+  rw [pure_ok] at h4
+  obtain ⟨rfl, rfl⟩ := h4
+  refine ⟨x, y, s1, h1, h3, rfl, ?_, ?_⟩
+  · clear h1 h3
+    induction x with
+    | nil => rfl
+    | cons d ds ih =>
+      simp only [List.filter_cons]
+      cases hasUid d.uid y <;> simp <;> omega
+  · intro d hd
+    simp [List.mem_filter, hd]
+
+/-- `~x` (`Inversion`) is `Identity() - x`. -/
+theorem inversion_is_difference (a : OpExpr) : eval (.inversion a) = eval (.diff .identity a) := by
+  funext p
+  simp only [eval, bind_assoc, pure_bind]
+
+end Pg.C14
